@@ -40,7 +40,7 @@ ASSUMPTIONS = [
 ]
 TIERS = {
     "quick": {"shards": 16, "cases": 110, "timeout": 600},
-    "thorough": {"shards": 16, "cases": 3500, "timeout": 7200},
+    "thorough": {"shards": 16, "cases": 9000, "timeout": 7200},
 }
 FLOORS = {
     "quick": {"programs": 1200, "accelerator_ops_compared": 6000, "external_buffers_compared": 2500, "distinct_nontrivial": 300, "memory_space_walks": 1200, "globals_decoded": 50, "constants_decoded": 100, "transposed_constants_checked": 100},
